@@ -425,11 +425,17 @@ func CheckMain(prop, tier string) int {
 			cv := SafeExec(w, c, env)
 			return cv != nil && cv.Oracle == v.Oracle
 		}
-		min, tries := Shrink(orig, fails, 90*time.Second, 4000)
-		env := NewEnv(NewStats(), relax, min.Seed)
-		mv := SafeExec(w, min, env)
-		if mv == nil || mv.Oracle != v.Oracle {
-			min, mv = orig, v
+		min, tries := orig, 0
+		if !v.NoShrink {
+			min, tries = Shrink(orig, fails, 90*time.Second, 4000)
+		}
+		mv := v
+		if !v.NoShrink {
+			env := NewEnv(NewStats(), relax, min.Seed)
+			mv = SafeExec(w, min, env)
+			if mv == nil || mv.Oracle != v.Oracle {
+				min, mv = orig, v
+			}
 		}
 		rf := &ReplayFile{Property: prop, BaseSeed: base, Violation: mv, Scenario: min, ShrinkSteps: tries, Readable: min.Readable()}
 		rf.Original.Ops = countOps(orig)
